@@ -42,6 +42,28 @@ def parseEntries : List String → List Entry
     { key := nat! k, keyOk := bool! ko, urlOk := bool! uo, url := nat! u } :: parseEntries r
   | _ => []
 
+def hexVal (c : Char) : Nat :=
+  if c.isDigit then c.toNat - '0'.toNat else if 'a' ≤ c ∧ c ≤ 'f' then c.toNat - 'a'.toNat + 10 else 0
+
+/-- Two hex digits per byte. -/
+def hexBytes : List Char → List Nat
+  | a :: b :: r => (hexVal a * 16 + hexVal b) :: hexBytes r
+  | _ => []
+
+/-- One decoded index entry: `n` = null, `o:num:hexkey:urlEmpty:urlParses:url` = an object; `num` is
+the number the harness gives the key string. -/
+def parseRaw (t : String) : RawEntry × Nat :=
+  match t.splitOn ":" with
+  | ["o", num, hex, ue, up, u] =>
+    ({ null := false, key := hexBytes hex.toList, urlEmpty := bool! ue, urlParses := bool! up,
+       url := nat! u }, nat! num)
+  | _ => ({ null := true, key := [], urlEmpty := true, urlParses := false, url := 0 }, 0)
+
+def numOf (tbl : List (List Nat × Nat)) (k : List Nat) : Nat :=
+  match tbl.find? (fun p => p.1 == k) with
+  | some p => p.2
+  | none => 0
+
 /-- `n` = null, `b` = bad id, anything else = a service that converts. -/
 def parseSvcEntries (ts : List String) : List SvcEntry :=
   ts.map fun t => if t == "n" then .null else if t == "b" then .badId else .ok
@@ -87,6 +109,16 @@ def step (s : S) : List String → S × String
   | ["cfg", im, rm, sm, se, ki, nc] =>
     ({ cfg := { idxMax := nat! im, rlMax := nat! rm, svcMax := nat! sm, svcEnabled := bool! se,
                 keepInvalid := bool! ki, svcNilCheck := bool! nc } }, "ok")
+  | ["cfg", im, rm, sm, se, ki, nc, rr] =>
+    ({ cfg := { idxMax := nat! im, rlMax := nat! rm, svcMax := nat! sm, svcEnabled := bool! se,
+                keepInvalid := bool! ki, svcNilCheck := bool! nc, rejectReserved := bool! rr } }, "ok")
+  -- an index document as decoded, in document order: the model sorts and validates it itself
+  | "rawdoc" :: c :: jsonOk :: rest =>
+    let ps := rest.map parseRaw
+    let tbl := ps.map fun p => (p.1.key, p.2)
+    let es := loadRaw s.cfg.rejectReserved (numOf tbl) (ps.map (·.1))
+    ({ s with idx := (nat! c, if bool! jsonOk then some es else none) :: s.idx,
+              keys := es.foldl (fun ks e => insertKey ks e.key) s.keys }, "ok")
   -- a restart with another configuration: the size limits change, the state stays
   | ["max", im, rm, sm] =>
     ({ s with cfg := { s.cfg with idxMax := nat! im, rlMax := nat! rm, svcMax := nat! sm } }, "ok")
